@@ -36,7 +36,29 @@ class VLoop(base_events.BaseEventLoop):
     def _write_to_self(self):
         pass
 
+    executor_order = "inline"
+
+    def _run_pool_jobs_reversed(self):
+        jobs, self._pool_jobs = self._pool_jobs, []
+        for f, fn, args in reversed(jobs):
+            try:
+                res, exc = fn(*args), None
+            except BaseException as e:  # noqa
+                res, exc = None, e
+            if not f.done():
+                f.set_exception(exc) if exc is not None else f.set_result(res)
+
     def run_in_executor(self, executor, fn, *args):
+        if self.executor_order == "reverse":
+            # An adversarial pool: jobs handed over during one turn of the loop are run when that turn is over, the one handed
+            # over LAST first (several pool threads, the first one slow). With one job in flight at a time - every caller that
+            # awaits its job before handing over the next - this is the same as the default.
+            f = self.create_future()
+            if not getattr(self, "_pool_jobs", None):
+                self._pool_jobs = []
+                self.call_soon(self._run_pool_jobs_reversed)
+            self._pool_jobs.append((f, fn, args))
+            return f
         # The function runs at once (one legal linearisation of the worker thread), but its future completes through the
         # ready queue, as on the stock loop: the awaiting task really yields and every other ready task gets its turn.
         f = self.create_future()
